@@ -43,7 +43,9 @@ MANIFEST = {
             "only resume at window boundaries reproduce the uninterrupted run; the predicate also demands the prologue's "
             "zero_grad, so gradients already on the parameters when train() is entered (user backward pass, a previous train() "
             "that ended inside a window) never reach the first step. Clipping with additional models is ONE clip_grad_norm_ "
-            "call over the union of all optimised parameters (translated clipForm; clip_one_call_is_global). Mixed precision: the translated GradScaler "
+            "call over the union of all optimised parameters (translated clipForm; clip_one_call_is_global). Every zero_grad of "
+            "the loop body leaves .grad = None (translated zeroGradForms, decided wfZero), so a parameter without gradient in a "
+            "window is skipped by the optimiser (idle_parameter_skipped). Mixed precision: the translated GradScaler "
             "protocol of the step branch (div_, unscale_ before clip, scaler.step, scaler.update) delivers the unscaled "
             "(clipped) mean for every scale S != 0. "
             "Tied to the code by the translated statement table + guards + divided/clipped parameter scope, the between-table, "
@@ -91,7 +93,8 @@ RULE = ("toy linear model with L1 sum loss (integer-valued gradients), k in 1..4
         "validation_steps and checkpoint_steps in {2,3,4,5,7} that are not multiples of k, start_with_validation, SIGINT kill "
         "before/after backward, clean stop + resume (also inside windows), processes entered with a stale gradient on the "
         "parameters, a second train() on the same objects after an incomplete window; clipping x 1-2 additional models with "
-        "gradient scales 8 / 1/8 / 4 / 1/4 and thresholds 0.25..2 x the global norm; enabled GradScaler with scales 2..64 and growth "
+        "gradient scales 8 / 1/8 / 4 / 1/4 and thresholds 0.25..2 x the global norm; a conditionally used head idle in "
+        "whole windows with Adam / SGD+momentum / SGD+weight decay, k in 1..3; enabled GradScaler with scales 2..64 and growth "
         "interval 1..3, with/without clipping; real Unet2d / RIM (steps 1, 2) / EndToEndVarNet / VSharpNet / Unet2dSSL / Unet2dJSSL / "
         "Unet2d+sensitivity_model engines on 8x8 two-coil data, k in 1..4, SGD/Adam; non-trivial = k >= 2 and at least one "
         "completed window; distinct = distinct protocol line / oracle configuration")
@@ -983,6 +986,33 @@ def oracle(ctx: Ctx, deep: bool = False):
                                 f"the step on the mean gradient clipped against the global norm over all optimised "
                                 f"parameters gives {rw}", _cfg_replay(c, check="clipaux", iteration=it))
                 break
+    # (2h) a conditionally used head that goes whole windows without a gradient, with stateful optimisers: the step on the
+    # mean accumulated gradient skips it (`.grad` is None there), so the head and its optimiser state must not move
+    for i in range(ctx.budget(9, 90) + (18 if deep else 0)):
+        k = [1, 2, 3][i % 3]
+        c = gen_cfg(rng, k=k, T=12, bs=rng.randint(1, 3))
+        c["X"] = [[(v if v else 1) + 0.25 for v in row] for row in c["X"]]     # off the kink of |·|
+        kind = ["adam", "momentum", "wd"][(i // 3) % 3]
+        c["opt"] = ("adam",) if kind == "adam" else ("sgd", Fr(1, 2) if kind == "momentum" else Fr(0))
+        c["wd"] = 0.125 if kind == "wd" else 0
+        nwin = 12 // k
+        c["idle_windows"] = sorted(rng.sample(range(1, nwin), rng.randint(1, max(1, (nwin - 1) // 2))))   # window 0 trains it
+        ref = ev.idle_head_reference(c)
+        if ref is None:
+            ctx.hist["oracle/idle-head/kink-ambiguous-skipped"] = ctx.hist.get("oracle/idle-head/kink-ambiguous-skipped", 0) + 1
+            continue
+        with scratch_dir() as d:
+            r = ev.run_eprocess(d, c, total=c["T"], resume=False, has_val=False)
+        ctx.count(("idle-head", kind, tuple(c["idle_windows"]), proto("loop", toy_groups(dict(c, X=[[0]], y=[0])))), True,
+                  bucket=f"oracle/idle-head/{kind}/k{k}")
+        for it, ((w, lr), (rw, rlr)) in enumerate(zip(r["records"], ref)):
+            if max(abs(a - b) for a, b in zip(w, rw)) > 1e-9:
+                yield Violation("idle-parameter-moved-without-gradient",
+                                f"k={k}, {kind}: a head that is used in no batch of windows {c['idle_windows']} (and so has no "
+                                f"gradient there): parameters after iteration {it} are {w}, the optimiser applied to the mean "
+                                f"accumulated gradient (None for the idle head) gives {rw}",
+                                _cfg_replay(c, check="idlehead", iteration=it))
+                break
     # (2g) a second train() on the SAME engine / model / optimiser objects after a phase that ended inside a window: the
     # pending gradients of phase 1 must not enter the first step of phase 2
     for i in range(ctx.budget(4, 40) + (12 if deep else 0)):
@@ -1050,6 +1080,16 @@ def replay(rep: dict) -> bool:
     if rep.get("op") == "real-engine":
         return real_engine_check(rep["engine"], rep["k"], rep["T"], rep["bs"], rep["opt"], rep["seed"])[1] is not None
     c = _cfg_from_replay(rep)
+    if rep.get("check") == "idlehead":
+        from props import c16_events as ev
+
+        if len(c["opt"]) > 1 and c["opt"][0] == "adam":
+            c["opt"] = ("adam",)
+        ref = ev.idle_head_reference(c)
+        with scratch_dir() as d:
+            r = ev.run_eprocess(d, c, total=c["T"], resume=False, has_val=False)
+        return ref is not None and any(max(abs(a - b) for a, b in zip(w, rw)) > 1e-9
+                                       for (w, _), (rw, _) in zip(r["records"], ref))
     if rep.get("check") == "clipaux":
         from props import c16_events as ev
 
